@@ -129,7 +129,7 @@ class PointEngine(Engine):
     real_components = ['atomman.defect.point (vacancy, interstitial, substitutional, dumbbell, point)',
                        'atomman.core.System / Atoms / Box', 'atomman.core.dvect (compiled from the current tree)']
     stub_components = ['the caller (insertion order, selection method, refused and ill-formed calls, scribbles)']
-    assumptions = ['exception classes are not part of the statement', 'masses are not carried by the defect generators and are not checked',
+    assumptions = ['exception classes are not part of the statement', 'an index outside -natoms..natoms-1 names an absent site and must be refused', 'keywords that name no per-atom property are ignored, one number stands for every component of a vector or tensor property (both as the unchanged library does)', 'masses are not carried by the defect generators and are not checked',
                    'old_id of ADDED atoms is not specified by the statement beyond not colliding with another atom\'s (an identifying index is unique)']
 
     # ------------------------------------------------------------------
